@@ -1,4 +1,5 @@
 """C07 — Only legal Hamiltonian terms with positive weight are ever stored."""
+from checks import extra_audits
 LEAN_TARGETS = ["QmcProps.C07", "drv_c06"]
 BINS = ["c06"]
 
@@ -40,6 +41,7 @@ RULE = ("same harness as C06 (bin c06, driver drv_c06), seeds shifted so the two
 
 
 def main(ck):
+    extra_audits.run(ck)
     if ck.lake_build(LEAN_TARGETS):
         ck.audit("QmcProps.C07", ["Qmc.C07." + t for t in THEOREMS])
     if ck.cargo_build(BINS):
